@@ -163,6 +163,10 @@ func postRun(res *vf.Result, mf MainFinal, scratch string, cp caps, resets []res
 	}
 	if sfx == "" && interrupted != "" {
 		sfx = ":after-interrupted-checkpoint"
+		if strings.Contains(interrupted, "bump litestream seq") {
+			// listed finding F38: the bookkeeping write right after wal_checkpoint met SQLITE_BUSY
+			sfx = ":after-checkpoint-failed-at-seq-bump"
+		}
 		note += " [a checkpoint failed after wal_checkpoint had run: " + interrupted + "]"
 	}
 	note += root
